@@ -451,7 +451,8 @@ def combine_samples(
         if cull_nan:
             ret_obj = ret_obj[
                 :,
-                _numpy.logical_not(_numpy.isnan(_numpy.sum(ret_obj, axis=0))),
+                # (not isnan(sum): +inf and -inf in one column sum to NaN)
+                _numpy.logical_not(_numpy.isnan(ret_obj).any(axis=0)),
             ]
     else:
         raise NotImplemented
